@@ -72,3 +72,52 @@ package encoder
 //@   assigns nothing
 //@   loop 1: invariant old(cursor) <= cursor && cursor < len(buf) && wsRun(buf, old(cursor), cursor)
 //@   loop 1: decreases len(buf) - cursor
+
+// ---------------------------------------------------------------- Compact / Indent buffer discipline (C18)
+// bytes.Buffer is modelled abstractly: bufLen(b), bufAt(b, i) (assumed specs for Grow/Bytes/Write/Len).
+//@ spec bufSame(b, n) := forall i :: 0 <= i && i < n ==> bufAt(b, i) == old(bufAt(b, i))
+
+//@ func TakeRuntimeContext() (ctx)
+//@   props C18 C11 C12 C03
+//@   trusted sync.Pool.Get returns a non-nil *RuntimeContext (built by New or stored by Put) whose field contents are arbitrary
+//@   ensures ctx != nil
+//@   assigns nothing
+
+//@ func ReleaseRuntimeContext(ctx)
+//@   props C18 C11 C12 C03
+//@   trusted sync.Pool.Put has no effect on modelled state
+//@   assigns nothing
+
+//@ func compactValue(dst, src, cursor, escape) (res, c, err)
+//@   props C18
+//@   trusted recursive token copier; body not yet under contract (its callees validateEndBuf / skipWhiteSpace are verified)
+//@   requires bufOK(src, cursor)
+//@   ensures err == nil ==> len(res) >= len(dst) && cursor < c && c < len(src)
+//@   ensures err == nil ==> forall k :: 0 <= k && k < len(dst) ==> res[k] == old(dst[k])
+//@   ensures forall k :: 0 <= k && k < len(src) ==> src[k] == old(src[k])
+//@   assigns M
+
+//@ func compact(dst, src, escape) (res, err)
+//@   props C18 C03
+//@   requires bufOK(src, 0)
+//@   ensures err == nil ==> len(res) >= len(dst)
+//@   ensures err == nil ==> forall k :: 0 <= k && k < len(dst) ==> res[k] == old(dst[k])
+//@   assigns M
+
+// Everything compact returns is written to the buffer, so the destination prefix handed in must be empty:
+// otherwise bytes already in the buffer are written a second time.
+//@ func compactAndWrite(buf, dst, src, escape) (err)
+//@   props C18
+//@   requires buf != nil && bufOK(src, 0)
+//@   requires len(dst) == 0
+//@   ghost out := len(dst)
+//@   ensures err != nil ==> bufLen(buf) == old(bufLen(buf)) && bufSame(buf, old(bufLen(buf)))
+//@   ensures err == nil ==> bufLen(buf) == old(bufLen(buf)) + out && bufSame(buf, old(bufLen(buf)))
+//@   assigns M
+
+//@ func Compact(buf, src, escape) (err)
+//@   props C18
+//@   requires buf != nil
+//@   ensures err != nil ==> bufLen(buf) == old(bufLen(buf)) && bufSame(buf, old(bufLen(buf)))
+//@   ensures err == nil ==> bufLen(buf) >= old(bufLen(buf)) && bufSame(buf, old(bufLen(buf)))
+//@   assigns M, RuntimeContext.Buf
